@@ -334,7 +334,7 @@ PROPERTIES = {
         "assumptions": COMMON_ASSUME,
     },
     "C04": {
-        "scopes": lambda tier: tree_scopes(tier, logs=False) + hset_scopes(tier) + aset_scopes(tier, logs=False),
+        "scopes": lambda tier: tree_scopes(tier, logs=False) + hset_scopes(tier) + aset_scopes(tier, logs=False) + [x for x in edge_tree_scopes(tier) + edge_other_scopes(tier) if x["args"].get("mode") == "random"],
         "relevant": rel_C04,
         "assumptions": COMMON_ASSUME + ["addresses are not part of the model: relocation independence is checked on the implementation (every transition is executed twice, at two addresses), not proved"],
     },
